@@ -276,7 +276,7 @@ OperandsStep == \E m \in Menu : Emit(m.op, m.v, m.loc)
 JumpForms == {[op |-> OpJump, r |-> 0, loc |-> 0], [op |-> OpJF, r |-> 1, loc |-> 0], [op |-> OpJT, r |-> 128, loc |-> 3]}
 NoIdleLabel == \A l \in 1..Len(labels) : labels[l] = -1 => Referenced(l)
 JumpsStep ==
-  \/ NKind("pad") < MaxPads /\ \E n \in Pads : Pad(n)
+  \/ NKind("pad") < MaxPads /\ \E n \in Pads : (n >= 8388608 => LastIs("jump")) /\ Pad(n)   \* 2^24 only matters to the fixed u32
   \/ Emit(19, <<0, 1>>, 0)
   \/ curloc # 0 /\ Emit(16, <<1, 2, 3>>, 0)
   \/ Len(labels) < MaxLabels /\ NoIdleLabel /\ CreateLabel
